@@ -501,3 +501,78 @@ def _rm_db(p):
 
 copy_db = _copy_db
 rm_db = _rm_db
+
+
+# ------------------------------------------------------------------ several migration sources in one call
+
+def two_source_cases(workdir, ref: Reference):
+    """run_migrations(conn, sources=[server, dbos]) -- what the DBOS runtime on SQLite calls -- from a fresh database, from
+    every server prefix recorded in schema_migrations, and from every legacy user_version database.  Versions are PER
+    PACKAGE: the second source's version 1 is pending whatever the first source has recorded.
+    -> records {start, final (schema objects), ref (the fresh database's), rows ([pkg, version, count]), want_rows, rerun_same}"""
+    from harness.env import stubimport
+    workdir = Path(workdir)
+    dsrc = Path(stubimport.REPO) / "packages/llama-agents-dbos/src/llama_agents/dbos/_store/sqlite/migrations"
+    dfiles = sorted(p for p in dsrc.glob("*.sql"))
+    if not dfiles:
+        return []
+    name = "verif_mig_dbos"
+    d = workdir / "pkgs" / name
+    if not d.exists():
+        d.mkdir(parents=True)
+        (d / "__init__.py").write_text("")
+        for p in dfiles:
+            (d / p.name).write_text(p.read_text())
+    root = str(workdir / "pkgs")
+    if root not in sys.path:
+        sys.path.insert(0, root)
+    importlib.invalidate_caches()
+    server_pkg = _prefix_package(workdir, ref, ref.n)
+    sources = [("server", server_pkg), ("dbos", name)]
+    want_rows = sorted([["server", int(v), 1] for v in ref.versions] + [["dbos", int(re.match(r"(\d+)", p.name).group(1)), 1] for p in dfiles])
+
+    def run_once(path):
+        conn = sqlite3.connect(str(path))
+        try:
+            _migrate_mod().run_migrations(conn, sources=list(sources))
+            conn.commit()
+            return ""
+        except Exception as e:  # noqa: BLE001
+            return type(e).__name__ + ": " + str(e)[:120]
+        finally:
+            conn.close()
+
+    def look(path):
+        conn = sqlite3.connect(str(path))
+        try:
+            objs = schema_objects(conn)
+            rows = []
+            try:
+                rows = [[str(p), int(v), int(c)] for p, v, c in conn.execute(
+                    "SELECT package, version, COUNT(*) FROM schema_migrations GROUP BY package, version ORDER BY package, version")]
+            except sqlite3.Error as e:
+                rows = [["unreadable: %s" % e, 0, 0]]
+            return objs, sorted(rows)
+        finally:
+            conn.close()
+
+    out = []
+    refp = workdir / "two_src_ref.sqlite"
+    build_start(refp, workdir, ref, "fresh")
+    ref_err = run_once(refp)
+    ref_objs, _ = look(refp)
+    starts = [("fresh", 0)] + [("prefix", k) for k in range(1, ref.n + 1)] + [("legacy", k) for k in range(1, ref.n + 1)]
+    for (kind, k) in starts:
+        p = workdir / ("two_src_%s_%d.sqlite" % (kind, k))
+        build_start(p, workdir, ref, kind, k)
+        err1 = run_once(p)
+        objs1, rows1 = look(p)
+        err2 = run_once(p)
+        objs2, rows2 = look(p)
+        out.append({"start": "%s:%d" % (kind, k), "err": err1 or err2 or ref_err, "final": objs1, "ref": ref_objs,
+                    "rows": rows1, "want_rows": want_rows, "rerun_same": bool(objs1 == objs2 and rows1 == rows2)})
+        for suffix in ("", "-wal", "-shm", "-journal"):
+            q = Path(str(p) + suffix)
+            if q.exists():
+                q.unlink()
+    return out
